@@ -796,6 +796,76 @@ pub(crate) fn run(opts: &Opts, report: &mut Report) {
                 }
             }
         }
+        // ---- a forged matched block that the peer ANNOUNCED before: SendLastState with the header of
+        // a forged twin of block k (self-consistent, same parent and chain root, lower total
+        // difficulty than the proven tip, so no proof is requested), then the BlockFilters answer
+        // with authentic filters and the twin's hash at position k, then the twin's body. An
+        // announced last state is not a proven one: nothing of the twin may be indexed.
+        if chunk == 0 && scn == Scn::Filters {
+            let (probe, _) = build_with(&env, &w, params, scn, None);
+            let n_filters = probe
+                .queue
+                .iter()
+                .find(|m| kind_of(m) == "BlockFilters")
+                .and_then(|m| packed::BlockFilterMessage::from_slice(&m.data).ok())
+                .map(|m| match m.to_enum() {
+                    packed::BlockFilterMessageUnion::BlockFilters(m) => m.filters().len(),
+                    _ => 0,
+                })
+                .unwrap_or(0);
+            drop(probe);
+            for i in 0..n_filters {
+                let (mut sim, _) = build_with(&env, &w, params, scn, None);
+                let pos = match sim.queue.iter().position(|m| kind_of(m) == "BlockFilters") {
+                    Some(p) => p,
+                    None => break,
+                };
+                let honest = sim.queue.remove(pos).unwrap();
+                let m = match packed::BlockFilterMessage::from_slice(&honest.data).map(|x| x.to_enum()) {
+                    Ok(packed::BlockFilterMessageUnion::BlockFilters(m)) => m,
+                    _ => break,
+                };
+                let start: u64 = m.start_number().unpack();
+                let k = start + i as u64;
+                let real = &w.main.blocks[k as usize];
+                let extra = crate::verif::txlib::build_tx(
+                    &[],
+                    &[packed::OutPoint::new(real.transactions()[0].hash(), 0)],
+                    &[crate::verif::txlib::OutSpec::lock(&env.scripts.a, 77_0000_0000)],
+                    0xe0 + i as u64,
+                );
+                let forged = real.as_advanced_builder().transaction(extra).build();
+                let vh = w.main.vh(k).as_builder().header(forged.data().header()).build();
+                let announce = packed::LightClientMessage::new_builder().set(packed::SendLastState::new_builder().last_header(vh).build()).build();
+                let mut hashes: Vec<packed::Byte32> = m.block_hashes().into_iter().collect();
+                hashes[i] = forged.hash();
+                let msg = packed::BlockFilterMessage::new_builder().set(m.clone().as_builder().block_hashes(hashes.pack()).build()).build();
+                let sb = packed::SyncMessage::new_builder().set(packed::SendBlock::new_builder().block(forged.data()).build()).build();
+                let r = crate::verif::props::panics::catch(|| {
+                    sim.deliver_msg(crate::verif::driver::InFlight { proto: crate::verif::net::Proto::LightClient, peer: honest.peer, data: announce.as_bytes(), note: format!("SendLastState[forged twin of {}]", k) });
+                    sim.deliver_msg(crate::verif::driver::InFlight { proto: honest.proto.clone(), peer: honest.peer, data: msg.as_bytes(), note: "BlockFilters[hash of the announced twin]".into() });
+                    sim.deliver_msg(crate::verif::driver::InFlight { proto: crate::verif::net::Proto::Sync, peer: honest.peer, data: sb.as_bytes(), note: "SendBlock[forged]".into() });
+                    // whatever the client asked for meanwhile is answered honestly; the body once more
+                    sim.deliver_all_fifo(40);
+                    sim.deliver_msg(crate::verif::driver::InFlight { proto: crate::verif::net::Proto::Sync, peer: honest.peer, data: sb.as_bytes(), note: "SendBlock[forged]".into() });
+                });
+                report.count("forged_matched_block_runs", 1);
+                report.count("announced_forged_twin_runs", 1);
+                match r {
+                    Err(p) => report.violation(format!("abort/{}", p.site()), format!("{} [announced forged twin]", p.describe()), json!({"scenario": "Filters", "forgery": "announced forged twin", "position": i})),
+                    Ok(()) => {
+                        let bad = inv_committed(&sim, &w.main);
+                        if !bad.is_empty() {
+                            report.violation(
+                                "uncommitted-data-stored/forged-matched-block/announced-last-state-treated-as-proven".to_owned(),
+                                format!("SendLastState with the header of a forged twin of block {} (not proven), BlockFilters (start {}) with authentic filters and the twin's hash, then its body: {}", k, start, bad[0]),
+                                json!({"scenario": "Filters", "params": format!("{:?}", params), "spec": spec, "position": i, "broken_records": bad.iter().take(8).collect::<Vec<_>>()}),
+                            );
+                        }
+                    }
+                }
+            }
+        }
         // ---- the same with ONE forged block among real ones: the honest peer then proves the real
         // blocks and reports the forged hash as missing in the same answer; the forged body
         // follows. A hash that was reported missing is not proven by the rest of the answer.
